@@ -48,6 +48,18 @@ package exterrors
 //@   ensures forall k string :: has(result, k) == (fieldVal(err, k) != nil)
 //@   ensures forall k string :: has(result, k) ==> result[k] == fieldVal(err, k)
 
+// (*SMTPError).Fields - the one provider of the code annotations - always publishes BOTH the code and the enhanced code
+// of the same error value (an all-zero enhanced code included: it means "derive from the code", and leaving the key out
+// would let the enhanced code of an inner error show through next to the outer error's code).
+//@ func (*SMTPError).Fields
+//@   prop C16
+//@   requires se != nil
+//@   modifies *
+//@   ensures result != nil
+//@   ensures has(result, "smtp_code") && isType(result["smtp_code"], "int") && as(result["smtp_code"], "int") == old(se.Code)
+//@   ensures has(result, "smtp_enchcode") && isType(result["smtp_enchcode"], "EnhancedCode") && as(result["smtp_enchcode"], "EnhancedCode") == old(se.EnhancedCode)
+//@   loop 0 invariant ctx != nil && fresh(ctx) && se.Code == old(se.Code) && se.EnhancedCode == old(se.EnhancedCode)
+
 // annotated(e): e carries an SMTP code annotation.  annWF(e): code and enhanced code annotations come from one
 // SMTPError satisfying its invariant (assumption about how maddy builds errors: only (*SMTPError).Fields provides them).
 //@ pure func annotated(e error) bool = isType(fieldVal(e, "smtp_code"), "int")
